@@ -16,6 +16,7 @@ import (
 	"fmt"
 	"os"
 	"strings"
+	"sync/atomic"
 	"syscall"
 	"time"
 )
@@ -38,6 +39,10 @@ func vcWait(cond func() bool) bool {
 	}
 	return true
 }
+
+// vcHeadNil reports whether the buffer has been recycled (Close sets head to nil); read under the
+// race-build mutex when there is one.
+func vcHeadNil(b *LinkBuffer) bool { return b.memorySize() == 0 && b.MallocLen() == 0 && vcNoNodes(b) }
 
 func vcErr(err error) string {
 	switch {
@@ -222,10 +227,13 @@ func vcCell(mode string, cb, in, outp, reuse bool, meth string, arg, rep int) st
 	waitClosed := func() bool {
 		select {
 		case <-closed:
-			return true
 		case <-time.After(2 * time.Second):
 			return false
 		}
+		// our callback was registered last, so it runs first; the finalizer registered by init runs last and
+		// ends with closeBuffer, which recycles the (always empty) output buffer after the input buffer:
+		// the close has completed when the output buffer's chain is gone.
+		return vcWait(func() bool { return atomic.LoadUint32(&c.closed) > 0 && c.outputBuffer.Len() == 0 && vcHeadNil(c.outputBuffer) })
 	}
 	switch mode {
 	case "user":
